@@ -797,6 +797,8 @@ class Ann(T):
         d2 = d
         if cx.coerce and isinstance(r, Ok) and type(r.v[1]) in (bool, int, float, str) and r.v[0] in ("bool", "int", "float", "str") and type(d) in (bool, int, float, str):
             d2 = float("nan") if r.v == ("float", "nan") else r.v[1]  # constraints see the coerced value
+        if cx.coerce and isinstance(r, Ok) and r.v == ("NoneType", None):
+            d2 = None  # '' coerced to None: constraints see None
         cerrs = check_constraints(d2, self.cons)
         if isinstance(r, Ok) and not cerrs:
             return r
